@@ -67,12 +67,12 @@ fn options_default() {
 fn leaf_expr<const K: u8>() -> Box<Expr> {
     match K {
         0 => opaque(1),
-        1 => Box::new(Expr::Ident(ident("x", local_ctxt()))),
-        2 => Box::new(Expr::Ident(ident("undefined", unresolved_ctxt()))),
+        1 => bx(Expr::Ident(ident("x", local_ctxt()))),
+        2 => bx(Expr::Ident(ident("undefined", unresolved_ctxt()))),
         3 => strlit("s"),
         4 => numlit(1.0),
-        5 => Box::new(Expr::Call(CallExpr { span: sp(9), callee: Callee::Expr(opaque(2)), args: Vec::new(), ..Default::default() })),
-        _ => Box::new(Expr::Member(MemberExpr { span: sp(9), obj: opaque(2), prop: MemberProp::Ident(idn("p")) })),
+        5 => bx(Expr::Call(CallExpr { span: sp(9), callee: Callee::Expr(opaque(2)), args: Vec::new(), ..Default::default() })),
+        _ => bx(Expr::Member(MemberExpr { span: sp(9), obj: opaque(2), prop: MemberProp::Ident(idn("p")) })),
     }
 }
 fn leaf_is_const(k: u8) -> bool { k == 2 || k == 3 || k == 4 }
@@ -80,11 +80,11 @@ fn isconst_shapes<const K: u8, const WRAP: u8>() {
     let inner = leaf_expr::<K>();
     let e = match WRAP {
         0 => inner,
-        1 => array(vec![el(inner)]),
-        2 => array(vec![el(numlit(2.0)), el(inner)]),
-        3 => Box::new(Expr::Object(ObjectLit { span: sp(3), props: vec![PropOrSpread::Prop(Box::new(Prop::KeyValue(KeyValueProp { key: PropName::Ident(idn("k")), value: inner })))] })),
-        4 => array(vec![Some(ExprOrSpread { spread: Some(sp(6)), expr: inner })]),
-        _ => Box::new(Expr::Object(ObjectLit { span: sp(3), props: vec![PropOrSpread::Spread(SpreadElement { dot3_token: sp(6), expr: inner })] })),
+        1 => garray([el(inner)]),
+        2 => garray([el(numlit(2.0)), el(inner)]),
+        3 => bx(Expr::Object(ObjectLit { span: sp(3), props: vec![PropOrSpread::Prop(Box::new(Prop::KeyValue(KeyValueProp { key: PropName::Ident(idn("k")), value: inner })))] })),
+        4 => garray([Some(ExprOrSpread { spread: Some(sp(6)), expr: inner })]),
+        _ => bx(Expr::Object(ObjectLit { span: sp(3), props: vec![PropOrSpread::Spread(SpreadElement { dot3_token: sp(6), expr: inner })] })),
     };
     let v = container(e);
     let r = util::is_jsx_attr_value_constant(&v);
